@@ -75,6 +75,7 @@ type Gen struct {
 	keyN   int
 
 	forceExported bool
+	preRoot       *Node // the schema just drawn is a Preprocess at the root (its typed Parse takes a string)
 	manyNil       bool // the schema just drawn is the long-list-of-nil-pointers record (NewCase validates it)
 	longNil       bool // DestValue: lists of composite items are long, pointers below them mostly nil
 	underLong     int
@@ -589,6 +590,15 @@ func (g *Gen) rewriteScenario(n *Node) {
 }
 
 func (g *Gen) Schema() *Node {
+	n := g.schema0()
+	g.preRoot = nil
+	if n.Kind == KPre {
+		g.preRoot = n
+	}
+	return n
+}
+
+func (g *Gen) schema0() *Node {
 	g.manyNil = false
 	if g.P.PManyNil > 0 && g.R.Fork(0x9a11).P(g.P.PManyNil) {
 		// a record with a long list of items, each with an optional pointer that is mostly nil, and pointer fields of
